@@ -95,14 +95,21 @@ func genAtom(r *rand.Rand) string {
 
 // genElem yields the inside of a quoted literal: atoms, lists, vectors and -
 // if syms - plain symbols.
-func genElem(r *rand.Rand, depth int, syms bool) string {
+func genElem(r *rand.Rand, depth int, syms int) string {
 	k := r.IntN(10)
 	switch {
 	case k < 2 && 0 < depth:
 		return genListBody(r, depth-1, syms, true)
 	case k == 2 && 0 < depth:
 		return vecLit(r, depth-1)
-	case k == 3 && syms:
+	case k == 3 && 0 < syms:
+		if syms == 2 && r.IntN(4) == 0 {
+			// a quote nested in the data
+			if r.IntN(2) == 0 {
+				return "'" + fw.Pick(r, symNames)
+			}
+			return "(quote " + fw.Pick(r, symNames) + ")"
+		}
 		return fw.Pick(r, symNames)
 	}
 	return genAtom(r)
@@ -111,7 +118,7 @@ func genElem(r *rand.Rand, depth int, syms bool) string {
 // vecLit yields a non-empty vector literal (the empty vector is in the avoid
 // set: its load form asks make-array for a dimension of 0, which is refused).
 func vecLit(r *rand.Rand, depth int) string {
-	body := genListBody(r, depth, true, false)
+	body := genListBody(r, depth, 2, false)
 	if body == "()" {
 		body = "(0)"
 	}
@@ -119,7 +126,7 @@ func vecLit(r *rand.Rand, depth int) string {
 }
 
 // genListBody yields "(e1 e2 ...)" (possibly dotted) without the quote.
-func genListBody(r *rand.Rand, depth int, syms, dotOK bool) string {
+func genListBody(r *rand.Rand, depth int, syms int, dotOK bool) string {
 	n := r.IntN(7)
 	if r.IntN(8) == 0 {
 		n = 8 + r.IntN(12)
@@ -176,12 +183,17 @@ func genValue(r *rand.Rand, kind, feat string) string {
 		}
 		return fw.Pick(r, append([]string{"t"}, kwNames...))
 	case "list":
+		if feat == "quote-in-list" {
+			// the reader holds 'b inside quoted data as a quote object
+			body := genListBody(r, 1, 0, false)
+			return "'(1 '" + fw.Pick(r, symNames) + " " + body[1:]
+		}
 		if feat == "symbol-in-list" {
-			body := genListBody(r, 2, true, true)
+			body := genListBody(r, 2, 1, true)
 			// make sure a symbol is there
 			return "'(" + fw.Pick(r, symNames) + " " + body[1:]
 		}
-		body := genListBody(r, 3, false, true)
+		body := genListBody(r, 3, 0, true)
 		if body == "()" {
 			body = "(1)"
 		}
@@ -192,12 +204,12 @@ func genValue(r *rand.Rand, kind, feat string) string {
 			return fw.Pick(r, []string{"#()", "(make-array 0)", "(vector)"})
 		case feat == "fill-pointer" || (feat == "" && r.IntN(5) == 0):
 			n := 2 + r.IntN(5)
-			return fmt.Sprintf("(make-array %d :fill-pointer %d :initial-contents '%s)", n, r.IntN(n), fixedList(r, n, true))
+			return fmt.Sprintf("(make-array %d :fill-pointer %d :initial-contents '%s)", n, r.IntN(n), fixedList(r, n, 2))
 		case feat == "plain-attrs":
 			return vecLit(r, 2)
 		case r.IntN(3) == 0:
 			n := 1 + r.IntN(5)
-			src := fmt.Sprintf("(make-array %d :initial-contents '%s", n, fixedList(r, n, true))
+			src := fmt.Sprintf("(make-array %d :initial-contents '%s", n, fixedList(r, n, 2))
 			if r.IntN(2) == 0 {
 				src += " :adjustable t"
 			}
@@ -276,7 +288,7 @@ func intList(xs []int) string {
 }
 
 // fixedList yields a list literal body of exactly n elements.
-func fixedList(r *rand.Rand, n int, syms bool) string {
+func fixedList(r *rand.Rand, n int, syms int) string {
 	es := make([]string, n)
 	for i := range es {
 		es[i] = genElem(r, 1, syms)
